@@ -192,3 +192,9 @@ Example validate_section_ex :
          [([66], PA (AStr [120])); ([88], PA (AInt 1)); ([66], PA (ABool true))])
   = [(s_E007, sev_error); (s_E003, sev_error); (s_E007, sev_error)].
 Proof. vm_compute. reflexivity. Qed.
+
+Example unknown_ignore_ex :
+  policy_norm p_IGNORE = p_IGNORE /\ policy_norm p_WARN = p_WARN /\ policy_norm [66; 79; 71; 85; 83] = p_REJECT /\
+  is_unknown (mkschema [([65], Some [COpt])] p_IGNORE) [([88], PA (AInt 1))] [88] /\
+  validate_section (fun _ => orc0) [83] (mkschema [([65], Some [COpt])] p_IGNORE) [([88], PA (AInt 1))] = [].
+Proof. vm_compute. repeat split. left. reflexivity. Qed.
